@@ -55,7 +55,8 @@ Definition lex_step (st : lstate) (b : Z) : option (lstate * list tok) :=
   | LEsc => if b =? LBR then Some (LCsi None, []) else None
   | LCsi arg =>
       if is_digit b then Some (LCsi (Some (match arg with Some v => v * 10 + (b - 48) | None => b - 48 end)), [])
-      else if b =? CHA then (match arg with Some v => Some (LGround [], [TUp v]) | None => Some (LGround [], [TUp 1]) end)
+      (* ECMA-48: a zero parameter means the default, 1 — "cursor up 0" moves one line up *)
+      else if b =? CHA then (match arg with Some v => Some (LGround [], [TUp (Z.max 1 v)]) | None => Some (LGround [], [TUp 1]) end)
       else if b =? CHJ then (match arg with None => Some (LGround [], [TErase]) | Some _ => None end)
       else None
   end.
